@@ -17,6 +17,7 @@ checks = {
  "C14": ("mcx", "E1: every schedule of 2-4 threads cloning / dropping / dereferencing OgreArc handles to one pooled instrumented value, for every constructor (new_with_clones, new_with+clone, increment_references+raw_copy, OgreUnique::into_ogre_arc), both allocators, 0-2 handles kept by the harness; oracle: every deref reads the value, destructor count 0 while a handle lives and exactly 1 afterwards, references_count() at rest, slot returned to the pool", "§4 C14", "stateless deviation-bounded DFS over thread schedules + instrumented-payload oracle"),
  "C19": ("mcx", "E1: every schedule of 2-3 recorder threads x 1-3 inc() with one probing reader on AtomicIncrementalAverage64; oracle: final count exact, final average = mean, every (count, average) reading explained by some set of measurements consistent with real time (brute force over subsets)", "§4 C19", "stateless deviation-bounded DFS over thread schedules + subset-explanation oracle"),
  "C17": ("mcx", "E1: every schedule of a producer's fan-out (1-2 sends, all implemented entry points) against a churn thread that creates a listener, or drops the first / the last created one, with 2-3 listeners that exist throughout, for the six Multi channel kinds (MAX_STREAMS 4); oracle after a sequential drain: stable listeners yield exactly the accepted sequence, the added one a gapless suffix (containing everything sent after its creation returned), the removed one a gapless prefix; OgreArc channels accept exactly BUFFER_SIZE events afterwards", "§4 C17", "stateless deviation-bounded DFS over thread schedules + exactly-once / suffix / prefix / capacity oracle"),
+ "C20": ("mcx", "E1: every schedule of a send_with_async whose setter stays suspended (its thread parked in the harness until the judge releases it) against one other operation (send, send_with, reserve+send, a ready or a second suspended send_with_async, a length query, issued by another thread or by the same one) and the consumer's polls, for every Uni and non-log Multi kind, with 0-1 events already pending; oracle: nobody ends blocked spinning while only suspended sends are outstanding (stall verdict of the scheduler), events accepted meanwhile are yielded while the send is still suspended, the suspended event arrives after resumption, nothing twice", "§4 C20", "stateless deviation-bounded DFS over thread schedules + stall / delivery-while-suspended oracle"),
  "C18": ("mcx", "E1: every schedule of 2-4 threads x 2-3 operations on the four stand-alone containers (capacity 2/4, prefilled 0-2); oracle: strict linearizability against a bounded LIFO / FIFO including 'full' and 'empty' answers", "§4 C18", "stateless deviation-bounded DFS over thread schedules + Wing-Gong linearizability search"),
 }
 ALL = ["C%02d" % i for i in range(1, 21)]
